@@ -160,6 +160,7 @@ fn unit_specs_inner(prop: &str, mode: &str, seed: u64, unit: u64, world_arg: Opt
         "c07" => vec![c07_enum_spec(rs, unit)],
         "c06" => vec![c06_enum_spec(seed, unit)],
         "sizes" => vec![sizes_enum_spec(rs, unit)],
+        "c11q" => vec![c11q_enum_spec(rs, unit)],
         "sizesf" => vec![sizesf_enum_spec(rs, unit)],
         "c12" => vec![c12_enum_spec(rs, unit)],
         "c11" => vec![c11_enum_spec(rs, unit)],
@@ -213,7 +214,7 @@ pub fn sizes_enum_spec(rs: u64, unit: u64) -> RunSpec {
     for p in SPATHS {
         ops.push(Op::Scan { a, path: p, w: None });
     }
-    let nsites = if world == "WA" { 7 } else { 2 };
+    let nsites = if world == "WA" { 8 } else { 2 };
     for site in 0..nsites {
         ops.push(Op::Query { site, mac: QMacro::Iter, key: None, plan: vec![], dp: None });
         ops.push(Op::Query { site, mac: QMacro::IterBorrow, key: None, plan: vec![], dp: None });
@@ -230,6 +231,42 @@ pub fn sizes_enum_spec(rs: u64, unit: u64) -> RunSpec {
     caps[a as usize] = cap;
     let len = ops.len() as u32;
     RunSpec { world: world.into(), caps, ops, crash_after: Some(len) }
+}
+
+/// Accesses from inside borrow-mode query closures, enumerated: 8 sites x {ecs_iter_borrow!,
+/// ecs_find_borrow!} x 6 inner access kinds x inner mutability x {aimed at the visited column,
+/// elsewhere} = 384 cells, at a sampled world state.
+pub const C11Q_CELLS: u64 = 8 * 2 * 6 * 2 * 2;
+pub fn c11q_enum_spec(rs: u64, unit: u64) -> RunSpec {
+    let mut c = unit % C11Q_CELLS;
+    let mut take = |n: u64| {
+        let r = c % n;
+        c /= n;
+        r
+    };
+    let site = take(8) as u8;
+    let find = take(2) == 1;
+    let kind = C11_KINDS[take(6) as usize];
+    let m = take(2) == 1;
+    let aimed = take(2) == 0;
+    let mut rng = crate::gen::Rng::new(rs);
+    let mut ops = Vec::new();
+    for a in 0..6u8 {
+        for _ in 0..(1 + rng.below(3)) {
+            ops.push(Op::Create { a, lvl: Lvl::Arch, p: rng.next() });
+        }
+    }
+    if rng.chance(1, 2) {
+        ops.push(Op::Destroy { h: Sel { class: SEL_LIVE, n: rng.next() as u32 }, typed: true, lvl: Lvl::Arch, cross: 0, over: false, dp: None });
+    }
+    // `ent` even = aim at the visited archetype/column (see QState::on_visit)
+    let ent = if aimed { 2 * rng.below(3) as u32 } else { 1 + 2 * rng.below(3) as u32 };
+    let acc = Access { kind, a: rng.below(6) as u8, col: rng.below(8) as u8, m, ent };
+    let plan: Vec<VisitAct> = (0..4).map(|_| VisitAct { step: Step::Continue, w: None, inner: Inner::Acc { acc }, panic: false }).collect();
+    let (mac, key) = if find { (QMacro::FindBorrow, Some(Sel { class: SEL_LIVE, n: rng.next() as u32 })) } else { (QMacro::IterBorrow, None) };
+    ops.push(Op::Query { site, mac, key, plan, dp: None });
+    ops.push(Op::Create { a: 1, lvl: Lvl::World, p: rng.next() });
+    RunSpec { world: "WA".into(), caps: vec![rng.below(4) as u32; 6], ops, crash_after: None }
 }
 
 pub const SIZESF_POS: u64 = 10;
@@ -278,7 +315,7 @@ pub fn sizesf_enum_spec(rs: u64, unit: u64) -> RunSpec {
     RunSpec { world: "WA".into(), caps, ops, crash_after: Some(len) }
 }
 
-pub const C06_COMBOS: u64 = 7 * 2 * 13;
+pub const C06_COMBOS: u64 = 8 * 2 * 13;
 
 /// Break positions enumerated: for a sampled state (a seeded history prefix shared by the 182
 /// units of one family) each of the 7 query sites x {ecs_iter!, ecs_iter_borrow!} is run with
@@ -286,8 +323,8 @@ pub const C06_COMBOS: u64 = 7 * 2 * 13;
 pub fn c06_enum_spec(seed: u64, unit: u64) -> RunSpec {
     let family = unit / C06_COMBOS;
     let mut c = unit % C06_COMBOS;
-    let site = (c % 7) as u8;
-    c /= 7;
+    let site = (c % 8) as u8;
+    c /= 8;
     let mac = if c % 2 == 0 { QMacro::Iter } else { QMacro::IterBorrow };
     c /= 2;
     let brk = c; // 12 = never
